@@ -496,7 +496,7 @@ def s_herm_matrix(draw, dmin, dmax, kinds, dtypes=A_.DTYPES64):
 def s_eigh_full(draw, tier):
     return {"mat": draw(s_herm_matrix(1, 24 if tier == "quick" else 48, HKINDS, A_.DTYPES)),
             "fn": draw(st.sampled_from(["eigh", "eigvalsh", "eigvecsh", "eigensystem", "eigensystem_vals"])),
-            "rep": draw(st.sampled_from(["dense", "qarray"])), "sort": draw(st.sampled_from([True, True, False, None]))}
+            "rep": draw(st.sampled_from(["dense", "qarray", "dense", "qarray", "csr", "csc"])), "sort": draw(st.sampled_from([True, True, False, None]))}
 
 
 def run_eigh_full(case):
@@ -513,16 +513,23 @@ def run_eigh_full(case):
     fn = case["fn"]
     info = dict(fn=fn, sort=case["sort"], dtype="complex" if H.dtype.kind == "c" else "real")
     lk = vk = None
-    if fn == "eigh":
-        lk, vk = qu.eigh(A, **kw)
-    elif fn == "eigvalsh":
-        lk = qu.eigvalsh(A, **kw)
-    elif fn == "eigvecsh":
-        vk = qu.eigvecsh(A, **kw)
-    elif fn == "eigensystem":
-        lk, vk = qu.eigensystem(A, isherm=True, **kw)
-    else:
-        lk = qu.eigensystem(A, isherm=True, return_vecs=False, **kw)
+    info["sparse"] = case["rep"] in ("csr", "csc")
+    try:
+        if fn == "eigh":
+            lk, vk = qu.eigh(A, **kw)
+        elif fn == "eigvalsh":
+            lk = qu.eigvalsh(A, **kw)
+        elif fn == "eigvecsh":
+            vk = qu.eigvecsh(A, **kw)
+        elif fn == "eigensystem":
+            lk, vk = qu.eigensystem(A, isherm=True, **kw)
+        else:
+            lk = qu.eigensystem(A, isherm=True, return_vecs=False, **kw)
+    except np.linalg.LinAlgError as e:
+        if info["sparse"]:
+            # documented (eigensystem): "A : operator"; the partial route and eigh_window densify a sparse operator
+            raise Violation("refused-documented-input", exc="LinAlgError", **info) from e
+        raise
     err = 0.0
     if lk is not None:
         lk = np.asarray(lk)
@@ -558,7 +565,7 @@ def run_eigh_full(case):
                 raise Violation("reconstruct", err=err, **info)
     deg = is_degenerate(ref, scale)
     return {"nt": d >= 2 and (deg or m["kind"] in ("block", "degenerate", "near_degenerate", "identity") or case["sort"] is False),
-            "cls": ["fn=" + fn, "kind=" + m["kind"], "dtype=" + m["dtype"], "sort=" + str(case["sort"])] + (["degenerate"] if deg else []),
+            "cls": ["fn=" + fn, "kind=" + m["kind"], "dtype=" + m["dtype"], "sort=" + str(case["sort"]), "rep=" + case["rep"]] + (["degenerate"] if deg else []),
             "err": err}
 
 
@@ -827,7 +834,7 @@ def s_eigh_projected(draw, tier):
     return {"mat": mat, "p": draw(st.integers(8, 11)), "k": draw(st.integers(1, 3)),
             "backend": draw(st.sampled_from(["numpy", "scipy", "lobpcg", None])), "which": draw(st.sampled_from(["SA", "LA"])),
             "rep": draw(st.sampled_from(["dense", "csr", "lazy"])), "prep": draw(st.sampled_from(["dense", "csr", "lazy"])),
-            "pkind": draw(st.sampled_from(["isometry", "selection"])), "v0seed": draw(A_.seeds)}
+            "pkind": draw(st.sampled_from(["isometry", "selection", "isometry_cplx", "isometry_cplx"])), "v0seed": draw(A_.seeds)}
 
 
 def run_eigh_projected(case):
@@ -840,6 +847,10 @@ def run_eigh_projected(case):
     rng = np.random.default_rng(int(m["seed"]) + 3)
     if case["pkind"] == "isometry":
         Pd = np.linalg.qr(_g(rng, cplx, d, p))[0].astype(H.dtype)
+    elif case["pkind"] == "isometry_cplx":
+        # genuinely complex isometry (also on a real matrix): P+ != P^T
+        Pd = np.linalg.qr(_g(rng, True, d, p))[0].astype(np.complex128)
+        cplx = True
     else:
         Pd = np.eye(d, dtype=H.dtype)[:, np.sort(rng.choice(d, size=p, replace=False))]
     Hp = Pd.conj().T @ H @ Pd
@@ -935,7 +946,7 @@ def s_general_matrix(draw, dmin, dmax, kinds=GKINDS):
 def s_eig_full(draw, tier):
     return {"mat": draw(s_general_matrix(1, 20 if tier == "quick" else 40)),
             "fn": draw(st.sampled_from(["eig", "eigvals", "eigvecs", "eigensystem"])),
-            "rep": draw(st.sampled_from(["dense", "qarray"])), "sort": draw(st.sampled_from([True, None, False]))}
+            "rep": draw(st.sampled_from(["dense", "qarray", "dense", "csr"])), "sort": draw(st.sampled_from([True, None, False]))}
 
 
 def _eig_cond_tol(M):
@@ -958,14 +969,20 @@ def run_eig_full(case):
     fn = case["fn"]
     info = dict(fn=fn, sort=case["sort"], kind=m["kind"])
     lk = vk = None
-    if fn == "eig":
-        lk, vk = qu.eig(A, **kw)
-    elif fn == "eigvals":
-        lk = qu.eigvals(A, **kw)
-    elif fn == "eigvecs":
-        vk = qu.eigvecs(A, **kw)
-    else:
-        lk, vk = qu.eigensystem(A, isherm=False, **kw)
+    info["sparse"] = case["rep"] == "csr"
+    try:
+        if fn == "eig":
+            lk, vk = qu.eig(A, **kw)
+        elif fn == "eigvals":
+            lk = qu.eigvals(A, **kw)
+        elif fn == "eigvecs":
+            vk = qu.eigvecs(A, **kw)
+        else:
+            lk, vk = qu.eigensystem(A, isherm=False, **kw)
+    except np.linalg.LinAlgError as e:
+        if info["sparse"]:
+            raise Violation("refused-documented-input", exc="LinAlgError", **info) from e
+        raise
     err = 0.0
     scale = max(fro(M), 1e-300)
     if lk is not None:
@@ -1584,7 +1601,7 @@ def s_expm_multiply(draw, tier):
     return {"mat": draw(s_exp_arg(24 if tier == "quick" else 48)),
             "rep": draw(st.sampled_from(["dense", "qarray", "csr", "csc", "linop", "aslinop"])),
             "vform": draw(st.sampled_from(["1d", "ket", "qket", "block"])), "vseed": draw(A_.seeds),
-            "backend": draw(st.sampled_from([None, "AUTO", "SCIPY", "scipy"])), "vcplx": draw(st.booleans())}
+            "backend": draw(st.sampled_from([None, "AUTO", "SCIPY", "scipy", "auto"])), "vcplx": draw(st.booleans())}
 
 
 def run_expm_multiply(case):
@@ -1605,7 +1622,11 @@ def run_expm_multiply(case):
     if case["rep"] in ("linop", "aslinop"):
         kw["traceA"] = complex(np.trace(M)) if np.iscomplexobj(M) else float(np.trace(M))
     info = dict(fn="expm_multiply", rep=case["rep"], vform=vf, kind=m["kind"])
-    got = np.asarray(qu.expm_multiply(A, v, **kw))
+    try:
+        got = np.asarray(qu.expm_multiply(A, v, **kw))
+    except KeyError as e:
+        # backend names are case-insensitive everywhere ('scipy' works here, bound_spectrum's own default is 'auto')
+        raise Violation("refused-documented-input", exc="KeyError", backend=str(case["backend"]), **info) from e
     want = expm_taylor(M) @ np.asarray(v)
     if got.shape != want.shape:
         raise Violation("shape", got=list(got.shape), want=list(want.shape), **info)
@@ -2033,6 +2054,155 @@ def run_lazy_linop(case):
     return {"nt": True, "cls": ["route=" + case["route"], "act=" + act, "res=" + bres, "rule=" + which] + (["degenerate"] if deg else []), "err": err}
 
 
+# ---------------------------------------------------------------------------
+# 22. Lazy operators carrying scalar factors (constructor factor, *, reflected *, *=), into the partial solvers
+# ---------------------------------------------------------------------------
+
+FACTORS = [2, -1.5, 0.5, -1, 3.0, -0.25]
+
+
+@st.composite
+def s_lazy_scaled(draw, tier):
+    backend = draw(st.sampled_from(["numpy", "scipy", "lobpcg", None]))
+    mat = draw(s_herm_matrix(10, 36, ("spectrum", "psd_sep", "block_sep", "degenerate")))
+    ops = draw(st.lists(st.tuples(st.sampled_from(["mul", "rmul", "imul", "mul", "rmul"]), st.sampled_from(FACTORS)), min_size=0, max_size=3))
+    return {"mat": mat, "backend": backend, "k": draw(st.integers(1, 3)), "which": draw(st.sampled_from(["SA", "LA", None])),
+            "inner": draw(st.sampled_from(["dense", "csr"])), "ctor_factor": draw(st.sampled_from([None, None, 2.0, -3])),
+            "ops": [list(o) for o in ops], "fn": draw(st.sampled_from(["eigh", "eigvalsh", "groundenergy"])), "v0seed": draw(A_.seeds)}
+
+
+def run_lazy_scaled(case):
+    import scipy.sparse as sp
+
+    qu = Q()
+    m = case["mat"]
+    H0 = make_herm(m)
+    d = H0.shape[0]
+    cplx = H0.dtype.kind == "c"
+    build = (lambda: sp.csr_matrix(H0)) if case["inner"] == "csr" else (lambda: H0.copy())
+    ckw = {} if case["ctor_factor"] is None else {"factor": case["ctor_factor"]}
+    L = qu.Lazy(build, shape=H0.shape, **ckw)
+    total = 1.0 if case["ctor_factor"] is None else float(case["ctor_factor"])
+    for op, f in case["ops"]:
+        if op == "mul":
+            L = L * f
+        elif op == "rmul":
+            L = f * L
+        else:
+            L *= f
+            if L is None:
+                raise Violation("lazy-imul-returns-none", nops=len(case["ops"]))
+        total *= float(f)
+    H = total * H0
+    ref = np.linalg.eigvalsh(H.astype(np.complex128))
+    scale = max(float(np.max(np.abs(ref))), 1e-300)
+    k, backend, which = int(case["k"]), case["backend"], case["which"]
+    rule = which or "SA"
+    bres = resolved_backend(H, k, None, None, backend)
+    kw = {} if backend is None else {"backend": backend}
+    if which is not None and case["fn"] != "groundenergy":
+        kw["which"] = which
+    if bres == "SCIPY" or backend is None:
+        kw["v0"] = seeded_vec(case["v0seed"], d, cplx)
+    if bres == "LOBPCG":
+        kw.update(tol=1e-10, maxiter=400, v0=seeded_vec(case["v0seed"], d, cplx, 1 if case["fn"] == "groundenergy" else k))
+    tol = INV64 if bres in ("SCIPY", "LOBPCG") else EXACT64
+    deg = is_degenerate(ref, scale)
+    nsc = len(case["ops"]) + (case["ctor_factor"] is not None)
+    info = dict(backend_resolved=bres, dtype="complex" if cplx else "real", degenerate=deg, rule=rule, lazy_scalings=nsc, negative=total < 0)
+    # the materialised operator must be the scaled matrix
+    Md = L()
+    Md = Md.toarray() if sp.issparse(Md) else np.asarray(Md)
+    e0 = rel_err(Md, H, floor=fro(H))
+    if not e0 <= EXACT64:
+        raise Violation("lazy-factor", err=e0, **info)
+    if case["fn"] == "groundenergy":
+        e = call_solver(lambda: qu.groundenergy(L, **kw))
+        err = abs(float(np.real(e)) - ref[0]) / scale
+        if not err <= tol:
+            raise Violation("selection", clause="not-the-smallest", err=err, **info)
+    else:
+        if case["fn"] == "eigh":
+            lk, vk = call_solver(lambda: qu.eigh(L, k=k, **kw))
+        else:
+            lk, vk = call_solver(lambda: qu.eigvalsh(L, k=k, **kw)), None
+        lk = np.asarray(lk)
+        err = select_oracle(lk.real, ref, rule, k, None, tol * scale, krylov=bres == "SCIPY", deg=deg, **info) / scale
+        check_ascending(lk, **info)
+        if vk is not None:
+            err = max(err, check_pairs(H, None, lk.real, np.asarray(vk), tol, **info))
+    return {"nt": nsc >= 1, "cls": ["res=" + bres, "scalings=%d" % nsc, "neg" if total < 0 else "pos", "inner=" + case["inner"], "fn=" + case["fn"]]
+            + ["op=" + o for o, _ in case["ops"]] + (["ctor-factor"] if case["ctor_factor"] is not None else []) + (["degenerate"] if deg else []),
+            "err": max(err, e0)}
+
+
+# ---------------------------------------------------------------------------
+# 23. IdentityLinearOperator (scaled identity available only through its action)
+# ---------------------------------------------------------------------------
+
+def _ILO():
+    from quimb.linalg.base_linalg import IdentityLinearOperator
+
+    return IdentityLinearOperator
+
+
+@st.composite
+def s_identity_linop(draw, tier):
+    return {"d": draw(st.integers(1, 24)), "factor": draw(st.sampled_from([1, 2, -3, 0.5, [0.0, 1.0], [1.5, -0.5], [-2.0, 0.25]])),
+            "act": draw(st.sampled_from(["matvec", "rmatvec", "matmat", "H", "T", "adjoint_matmat", "metric_lobpcg", "dtype"])),
+            "vseed": draw(A_.seeds), "mat": draw(s_herm_matrix(12, 30, ("spectrum", "psd_sep")))}
+
+
+def run_identity_linop(case):
+    qu = Q()
+    f = case["factor"]
+    f = complex(*f) if isinstance(f, list) else f
+    d = int(case["d"])
+    act = case["act"]
+    info = dict(fn="IdentityLinearOperator", act=act, complex_factor=isinstance(f, complex),
+                adjoint_action=act in ("rmatvec", "H", "adjoint_matmat", "T"))
+    if act == "metric_lobpcg":
+        # lobpcg is documented for generalized problems with matrix-free operators: A v = lambda (c 1) v
+        if isinstance(f, complex) or f <= 0:
+            raise Reject("a metric must be positive")
+        H = make_herm(case["mat"])
+        d = H.shape[0]
+        cplx = H.dtype.kind == "c"
+        ref = np.linalg.eigvalsh(H.astype(np.complex128)) / f
+        lk, vk = call_solver(lambda: qu.eigh(H, k=2, B=_ILO()(d, f), backend="lobpcg", which="SA", tol=1e-10, maxiter=400,
+                                               v0=seeded_vec(case["vseed"], d, cplx, 2)))
+        scale = float(np.max(np.abs(ref)))
+        err = check_selection(np.asarray(lk).real, ref, "SA", 2, None, INV64 * scale, **info) / scale
+        err = max(err, check_pairs(H, f * np.eye(d), np.asarray(lk).real, np.asarray(vk), INV64 * 10, **info))
+        return {"nt": True, "cls": ["act=" + act], "err": err}
+    lo = _ILO()(d, f)
+    M = f * np.eye(d)
+    rng = np.random.default_rng(int(case["vseed"]))
+    v = _g(rng, True, d)
+    V = _g(rng, True, d, 3)
+    if act == "matvec":
+        got, want = lo @ v, M @ v
+    elif act == "rmatvec":
+        got, want = lo.rmatvec(v), M.conj().T @ v
+    elif act == "matmat":
+        got, want = lo @ V, M @ V
+    elif act == "H":
+        got, want = lo.H @ v, M.conj().T @ v
+    elif act == "T":
+        got, want = lo.T @ v, M.T @ v
+    elif act == "adjoint_matmat":
+        got, want = lo.H @ V, M.conj().T @ V
+    else:
+        if tuple(lo.shape) != (d, d) or np.dtype(lo.dtype).kind != np.asarray(f).dtype.kind:
+            raise Violation("shape", got=[list(lo.shape), str(lo.dtype)], **info)
+        got, want = lo @ np.ones(d), M @ np.ones(d)
+    err = rel_err(np.asarray(got), want, floor=abs(f) * fro(v))
+    if not err <= EXACT64:
+        raise Violation("value", err=err, **info)
+    return {"nt": isinstance(f, complex) or act in ("rmatvec", "H", "adjoint_matmat"), "cls": ["act=" + act, "factor=" + ("complex" if isinstance(f, complex) else type(f).__name__)],
+            "err": err}
+
+
 SUBCHECKS = [
     SubCheck("eigh_full", run_eigh_full, s_eigh_full, examples=(200, 3000), shards=(1, 4),
              rule="eigh/eigvalsh/eigvecsh/eigensystem with k<0 on 7 Hermitian kinds x 4 dtypes: spectrum == numpy, residual, Gram, "
@@ -2087,4 +2257,11 @@ SUBCHECKS = [
     SubCheck("lazy_linop", run_lazy_linop, s_lazy_linop, examples=(200, 3000), shards=(1, 4),
              rule="lazy_ptr_linop / lazy_ptr_ppt_linop (operators defined only by a tensor-network action) fed to eigh/eigvalsh/groundenergy "
                   "(scipy, auto, lobpcg): action and selected spectrum == dense partial trace / partial transpose (numpy einsum oracle); all nt"),
+    SubCheck("lazy_scaled", run_lazy_scaled, s_lazy_scaled, examples=(250, 4000), shards=(1, 4),
+             rule="Lazy operators (dense / sparse constructor) carrying 0-4 scalar factors (constructor factor=, L*x, x*L, L*=x; negative factors flip "
+                  "the spectrum) materialised and passed to eigh/eigvalsh/groundenergy on numpy/scipy/lobpcg/auto: operator == prod(factors)*M, "
+                  "selection/residual against it; nt: at least one scaling"),
+    SubCheck("identity_linop", run_identity_linop, s_identity_linop, examples=(150, 2500), shards=(1, 4),
+             rule="IdentityLinearOperator with int/real/complex factor: matvec, rmatvec, matmat, .H, .T, adjoint matmat vs factor*eye, and as the "
+                  "matrix-free metric of a lobpcg generalized problem; nt: complex factor or an adjoint action"),
 ]
